@@ -26,7 +26,9 @@ func main() {
 		"Outside the model fragment (direct check only), in the same pool: Data/RichData and user aliases (constructor route and recursive ones through " +
 		"parser + AddTypes) in every member position and in two-position Variants (also below an alias), Iterable over entry tuples against Structs with " +
 		"required / Optional[k] / implicitly optional keys and Hashes, Enums that repeat a value (directly or through the case-insensitive flag), random " +
-		"types over all of it"
+		"types over all of it. Fifth wave: two distinct alias objects with one name and different definitions (Go constructor, contexts of their own) in 17 member positions; " +
+		"Hash types whose key or value type is a wrapper around string / integer types next to Structs with required members; clause interchange: types that accept each other " +
+		"(not through the by-specification rule) get the same answers from, and give the same answers to, every third type"
 	pcore.Do(func(c px.Context) {
 		if cfg.Replay != "" {
 			replay(c, cfg, res)
@@ -239,7 +241,9 @@ func negativeSizeProbes(cfg *lib.Config, res *lib.Result) {
 				Input: map[string]interface{}{"kind": "refl", "a": pool[a].s}, Tags: []string{"refl:negative-size:" + pool[a].s.K}})
 		}
 	}
-	has := func(i int, kind string) bool { return lat.Contains(pool[i].d, kind) || lat.SpecContains(pool[i].s, kind) }
+	has := func(i int, kind string) bool {
+		return lat.Contains(pool[i].d, kind) || lat.SpecContains(pool[i].s, kind)
+	}
 	for a := 0; a < n; a++ {
 		for b := 0; b < n; b++ {
 			if !m[a][b] || a == b {
@@ -407,6 +411,11 @@ func run(c px.Context, cfg *lib.Config, res *lib.Result) {
 	xt := lat.ExtTypes(lib.NewRng(cfg.Seed^0x5eed03), nRandomX, cfg.Thorough())
 	// third wave: Float types with an infinite bound, the family of Object types, twin systems of mutually recursive aliases
 	xt = append(xt, lat.Ext3Types(lib.NewRng(cfg.Seed^0x5eed04), cfg.Thorough())...)
+	// fifth wave: two distinct alias objects with one name and different definitions; Hash types whose key type is a wrapper
+	// around string types (Variant / NotUndef / Optional / alias) next to Struct types with required members
+	xt = append(xt, lat.Ext5Types(lib.NewRng(cfg.Seed^0x5eed05), cfg.Thorough())...)
+	hk := lat.HashKeyFamilies(lib.NewRng(cfg.Seed^0x5eed06), cfg.Thorough())
+	xt = append(xt, hk...)
 	u := lat.NewUniverseWith(rng, nRandom, 1, xt, nil)
 	// Unit is "two-way assignable by definition" (every type accepts it and it accepts every type), so no
 	// order law can hold through it (Integer >= Unit >= String): types that contain Unit are left out.
@@ -419,8 +428,11 @@ func run(c px.Context, cfg *lib.Config, res *lib.Result) {
 	res.Extra["types"] = n
 	for _, sp := range u.Specs {
 		switch sp.K {
-		case "FloatB", "ValType", "Decl", "DeclOnce":
+		case "FloatB", "ValType", "Decl", "DeclOnce", "CtxDecl":
 			res.Count("pool.type." + sp.K)
+		}
+		if lat.IsCtxDecl(sp) {
+			res.Count("pool.type.holds-CtxDecl")
 		}
 	}
 	spec := func(i int) interface{} { return u.Specs[i] }
@@ -493,6 +505,65 @@ func run(c px.Context, cfg *lib.Config, res *lib.Result) {
 			}
 		}
 	}
+	// ---- types that accept each other are interchangeable: whoever accepts one accepts the other, and they accept the same
+	// types (two instances of transitivity, A >= B1 >= B2 and B1 >= B2 >= C, stated for the pairs (B1, B2) whose mutual
+	// acceptance cannot have come through the by-specification rule; what a third type - a Struct included - answers for
+	// the two must then agree: the rule reads key type, value type and size of a Hash, and B1, B2 agree on all of them)
+	{
+		has := func(i int, kind string) bool {
+			return lat.Contains(u.Dec[i], kind) || lat.SpecContains(u.Specs[i], kind)
+		}
+		hasStruct, hasHash := make([]bool, n), make([]bool, n)
+		for i := 0; i < n; i++ {
+			hasStruct[i], hasHash[i] = has(i, "Struct"), has(i, "Hash")
+		}
+		for b1 := 0; b1 < n; b1++ {
+			if trivial(u, b1) {
+				continue
+			}
+			for _, b2 := range accepts[b1] {
+				if b2 <= b1 || !u.Asg[b2][b1] || trivial(u, b2) {
+					continue
+				}
+				if (hasStruct[b1] && hasHash[b2]) || (hasStruct[b2] && hasHash[b1]) {
+					res.Count("interchange.pair-may-use-the-rule")
+					continue
+				}
+				res.Count("interchange.mutual-pairs")
+				for a := 0; a < n; a++ {
+					res.Evaluations += 2
+					if u.Asg[a][b1] && !trivial(u, a) && a != b1 && a != b2 && res.DistinctNontrivial < 2200000 {
+						res.Nontrivial(fmt.Sprintf("i/%d/%d/%d", a, b1, b2))
+					}
+					for side := 0; side < 2; side++ {
+						x1, x2, what := u.Asg[a][b1], u.Asg[a][b2], "right"
+						if side == 1 {
+							x1, x2, what = u.Asg[b1][a], u.Asg[b2][a], "left"
+							if hasStruct[b1] && hasHash[a] {
+								// B1 >= B2 >= C with the by-specification rule in the last step: the open finding
+								continue
+							}
+						}
+						if x1 == x2 {
+							continue
+						}
+						tags := []string{"inter-" + what + ":" + u.Dec[a].K + "/" + u.Dec[b1].K + "~" + u.Dec[b2].K}
+						if key := "violations.interchange." + strings.Join(tags, ","); res.Distribution[key] >= 3 {
+							res.Distribution[key]++
+							continue
+						}
+						txt := fmt.Sprintf("%s and %s accept each other, but %s accepts the first: %v, the second: %v", u.Text[b1], u.Text[b2], u.Text[a], x1, x2)
+						if side == 1 {
+							txt = fmt.Sprintf("%s and %s accept each other, but the first accepts %s: %v, the second: %v", u.Text[b1], u.Text[b2], u.Text[a], x1, x2)
+						}
+						res.Violate(lib.Violation{Clause: "interchange", What: txt + lat.Legend(u.Specs[a], u.Specs[b1], u.Specs[b2]),
+							Input: map[string]interface{}{"kind": "inter", "law": what, "a": spec(a), "b": spec(b1), "c": spec(b2)}, Tags: tags})
+					}
+				}
+			}
+		}
+	}
+	// ---- transitivity: the triples
 	for a := 0; a < n; a++ {
 		for b := 0; b < n; b++ {
 			if !u.Asg[a][b] || trivial(u, a) {
@@ -513,14 +584,27 @@ func run(c px.Context, cfg *lib.Config, res *lib.Result) {
 				if !u.Asg[a][cc] {
 					tags := []string{"trans:" + u.Dec[a].K + "<-" + u.Dec[b].K + "<-" + u.Dec[cc].K}
 					// (the recipe is looked at as well: the decoded structure does not show what is below an alias)
-					has := func(i int, kind string) bool { return lat.Contains(u.Dec[i], kind) || lat.SpecContains(u.Specs[i], kind) }
-					if has(a, "Struct") && has(b, "Hash") {
+					has := func(i int, kind string) bool {
+						return lat.Contains(u.Dec[i], kind) || lat.SpecContains(u.Specs[i], kind)
+					}
+					// the open finding: the by-specification rule loses what the Struct says about its keys. It excuses a chain
+					// whose first step may go through the rule only when the last type brings a Struct of its own
+					// (Struct[{a=>..}] >= Hash[String,..] >= Struct[{b=>..}]), and a chain whose second step may go through it
+					// (Hash[Enum[a],..] >= Struct[{a=>..}] >= Hash[String,..]). A chain Struct >= Hash >= <no Struct anywhere> is
+					// not excused: the rule answers for the last type exactly as for the middle one, through key type,
+					// value type and size, all three of them transitive
+					if has(a, "Struct") && has(b, "Hash") && has(cc, "Struct") {
+						tags = append(tags, "trans-through-struct-accepts-hash-rule")
+					} else if has(b, "Struct") && has(cc, "Hash") {
 						tags = append(tags, "trans-through-struct-accepts-hash-rule")
 					}
-					if has(b, "Struct") && has(cc, "Hash") {
-						tags = append(tags, "trans-through-struct-accepts-hash-rule")
+					keep := 3
+					if len(tags) > 1 {
+						// an instance of the open finding: one per group is kept (the list of kept violations is capped, and what is
+						// not excused must find room in it)
+						keep = 1
 					}
-					if key := "violations.transitive." + strings.Join(tags, ","); res.Distribution[key] >= 3 {
+					if key := "violations.transitive." + strings.Join(tags, ","); res.Distribution[key] >= keep {
 						// Violate keeps three of a group: the others are only counted (wording a million of them costs)
 						res.Distribution[key]++
 						continue
@@ -644,6 +728,57 @@ func run(c px.Context, cfg *lib.Config, res *lib.Result) {
 		}
 		return out
 	}
+	// M: the by-specification rule on every run: every (Struct, Hash) pair of the Hash-key family inside the model fragment
+	// (key types that GuardedIsAssignable takes apart before String is asked: Variant, NotUndef, Optional; the model's
+	// `flat FString k`), and a sample of the pairs the other way round
+	{
+		inHK := map[string]bool{}
+		for _, sp := range hk {
+			inHK[sp.String()] = true
+		}
+		var ss, hs []int
+		for i := 0; i < n; i++ {
+			if !u.InM[i] || !inHK[u.Specs[i].String()] {
+				continue
+			}
+			switch u.Dec[i].K {
+			case "Struct":
+				ss = append(ss, i)
+			case "Hash":
+				hs = append(hs, i)
+			}
+		}
+		var ps []pair
+		for _, si := range ss {
+			for _, hi := range hs {
+				ps = append(ps, pair{si, hi})
+			}
+		}
+		capN := 2400
+		if cfg.Thorough() {
+			capN = 12000
+		}
+		ps = sample(ps, capN)
+		for i := 0; i < 300 && len(ss) > 0 && len(hs) > 0; i++ {
+			ps = append(ps, pair{hs[rng.Intn(len(hs))], ss[rng.Intn(len(ss))]})
+		}
+		cf := &lib.CasesFile{Imports: []string{"Model.Base", "Model.Ty", "Model.Lattice", "Model.TyEq", "Corr.CorrC01", "Corr.CorrC03"}, Typ: "ty * ty * bool * bool",
+			Obligations: map[string]string{"eq_model": "eq_mismatches cases", "asg_model": "asg2_mismatches orc cases"}}
+		pats, strs := map[string]bool{}, map[string]bool{}
+		for _, p := range ps {
+			if u.Asg[p.a][p.b] {
+				res.Count("structhash.cases.accepted")
+			} else {
+				res.Count("structhash.cases.rejected")
+			}
+			lat.TyStrings(u.Dec[p.a], pats, strs)
+			lat.TyStrings(u.Dec[p.b], pats, strs)
+			cf.Add(fmt.Sprintf("(%s, %s, %s, %s)", lat.GTy(u.Dec[p.a]), lat.GTy(u.Dec[p.b]), lib.GBool(eq[p.a][p.b]), lib.GBool(u.Asg[p.a][p.b])),
+				map[string]interface{}{"kind": "eq", "a": spec(p.a), "b": spec(p.b)})
+		}
+		cf.Prelude = lat.Oracle(pats, strs)
+		res.CorrFiles = append(res.CorrFiles, cf.WriteTo(cfg.Out, "cases_structhash"))
+	}
 	shards := 4
 	for s := 0; s < shards; s++ {
 		cf := &lib.CasesFile{Imports: []string{"Model.Base", "Model.Ty", "Model.Lattice", "Model.TyEq", "Corr.CorrC01", "Corr.CorrC03"}, Typ: "ty * ty * bool * bool",
@@ -716,6 +851,17 @@ func replay(c px.Context, cfg *lib.Config, res *lib.Result) {
 			fmt.Printf("A = %s\nB = %s\nC = %s\nA>=B %v, B>=C %v, A>=C %v\n", a, b, cc, asg(a, b), asg(b, cc), asg(a, cc))
 			if asg(a, b) && asg(b, cc) && !asg(a, cc) {
 				fail("transitive", fmt.Sprintf("%s accepts %s, which accepts %s, but the first does not accept the last", a, b, cc))
+			}
+		case "inter":
+			a, b1, b2 := x.A.Build(), x.B.Build(), x.C.Build()
+			fmt.Printf("A = %s\nB1 = %s\nB2 = %s\nB1>=B2 %v, B2>=B1 %v; A>=B1 %v, A>=B2 %v; B1>=A %v, B2>=A %v\n", a, b1, b2, asg(b1, b2), asg(b2, b1), asg(a, b1), asg(a, b2), asg(b1, a), asg(b2, a))
+			if asg(b1, b2) && asg(b2, b1) {
+				if x.Law == "left" && asg(b1, a) != asg(b2, a) {
+					fail("interchange", fmt.Sprintf("%s and %s accept each other, but only one of them accepts %s", b1, b2, a))
+				}
+				if x.Law != "left" && asg(a, b1) != asg(a, b2) {
+					fail("interchange", fmt.Sprintf("%s and %s accept each other, but %s accepts only one of them", b1, b2, a))
+				}
 			}
 		case "widen":
 			a, w, b := x.A.Build(), x.W.Build(), x.B.Build()
